@@ -4,6 +4,7 @@ package main
 
 import (
 	"fmt"
+	"strconv"
 	"go/token"
 	"go/types"
 	"strings"
@@ -27,6 +28,9 @@ type SpecEnv struct {
 	at    *ssa.BasicBlock // program point for local name resolution
 	inOld bool
 	tolerant bool
+	loads []Term // heap values of reference/slice sort read while evaluating (outside quantifiers)
+	toleranceUsed bool
+	anyBlock bool
 	fn    *ssa.Function // function whose names are in scope (may be nil)
 	qn    int
 }
@@ -388,6 +392,73 @@ func (env *SpecEnv) localName(name string) (SVal, bool) {
 	fr := env.fr
 	fn := env.fn
 	ft := env.ft
+	// phis at the program point first (loop variables), then the most recent
+	// binding of the identifier according to the debug information (handles
+	// shadowing), then parameters / captured variables / named allocs.
+	if env.at != nil {
+		for _, ins := range env.at.Instrs {
+			phi, ok := ins.(*ssa.Phi)
+			if !ok {
+				break
+			}
+			if phi.Comment == name {
+				if v, ok := fr.vals[phi]; ok {
+					return SVal{T: ft.termOf(v, phi.Type()), Typ: phi.Type(), V: &v}, true
+				}
+			}
+		}
+	}
+	{
+		var best ssa.Value
+		var bestBlock *ssa.BasicBlock
+		var bestAddr bool
+		for _, b := range fn.Blocks {
+			if env.at != nil && !(b == env.at || b.Dominates(env.at)) {
+				continue
+			}
+			if env.at == nil && len(fn.Blocks) > 1 && b != fn.Blocks[0] && !env.anyBlock {
+				// without a program point only the entry block is certainly executed
+				continue
+			}
+			for _, ins := range b.Instrs {
+				var val ssa.Value
+				isAddr := false
+				switch d := ins.(type) {
+				case *ssa.Phi:
+					if d.Comment != name {
+						continue
+					}
+					val = d
+				case *ssa.DebugRef:
+					if id := d.Object(); id == nil || id.Name() != name {
+						continue
+					}
+					val, isAddr = d.X, d.IsAddr
+				default:
+					continue
+				}
+				_, have := fr.vals[val]
+				_, isConst := val.(*ssa.Const)
+				if !have && !isConst {
+					continue
+				}
+				if bestBlock == nil || bestBlock == b || bestBlock.Dominates(b) {
+					best, bestBlock, bestAddr = val, b, isAddr
+				}
+			}
+		}
+		if best != nil {
+			v := fr.get(best)
+			sv := SVal{T: ft.termOf(v, best.Type()), Typ: best.Type(), V: &v}
+			if bestAddr {
+				if d, err := env.deref(sv); err == nil {
+					return d, true
+				}
+			} else {
+				return sv, true
+			}
+		}
+	}
 	for _, p := range fn.Params {
 		if p.Name() == name {
 			if v, ok := fr.vals[p]; ok {
@@ -441,28 +512,7 @@ func (env *SpecEnv) localName(name string) (SVal, bool) {
 			return d, true
 		}
 	}
-	// debug refs: the value bound to the identifier in a dominating block
-	var best ssa.Value
-	for _, b := range fn.Blocks {
-		if env.at != nil && !(b == env.at || b.Dominates(env.at)) {
-			continue
-		}
-		for _, ins := range b.Instrs {
-			if d, ok := ins.(*ssa.DebugRef); ok && !d.IsAddr {
-				if id := d.Object(); id != nil && id.Name() == name {
-					if _, ok := fr.vals[d.X]; ok {
-						best = d.X
-					} else if _, isConst := d.X.(*ssa.Const); isConst {
-						best = d.X
-					}
-				}
-			}
-		}
-	}
-	if best != nil {
-		v := fr.get(best)
-		return SVal{T: ft.termOf(v, best.Type()), Typ: best.Type(), V: &v}, true
-	}
+	// (debug refs handled first, see above)
 	// SSA register name escape hatch: %t12
 	if strings.HasPrefix(name, "%") {
 		for _, b := range fn.Blocks {
@@ -525,7 +575,9 @@ func (env *SpecEnv) field(base SVal, name string) (SVal, error) {
 			return SVal{T: Term{sub, SRef}, Typ: types.NewPointer(f.Type())}, nil
 		}
 		h, s := u.fieldHeap(t, idx)
-		return SVal{T: Term{sel(ft.heapTerm(env.state(), h), base.T.S), s}, Typ: f.Type()}, nil
+		r := Term{sel(ft.heapTerm(env.state(), h), base.T.S), s}
+		env.noteLoad(r)
+		return SVal{T: r, Typ: f.Type()}, nil
 	}
 	return SVal{T: Term{sx("f$"+si.name+"$"+si.fields[idx].name, base.T.S), si.fields[idx].sort}, Typ: f.Type()}, nil
 }
@@ -549,6 +601,7 @@ func (env *SpecEnv) index(base, idx SVal) (SVal, error) {
 		case *types.Slice:
 			h, es := u.elemHeap(bt.Elem())
 			t := sel(sel(ft.heapTerm(env.state(), h), sx("sbase", base.T.S)), sx("+", sx("soff", base.T.S), idx.T.S))
+			env.noteLoad(Term{t, es})
 			return SVal{T: Term{t, es}, Typ: bt.Elem()}, nil
 		case *types.Map:
 			_, val, _, vs := u.mapHeaps(bt)
@@ -583,8 +636,47 @@ func splitArraySort(s Sort) (Sort, Sort) {
 
 func (env *SpecEnv) binary(x EBinary) (SVal, error) {
 	ft := env.ft
+	undefinedErr := func(err error) bool {
+		return env.tolerant && (strings.Contains(err.Error(), "unknown name") || strings.Contains(err.Error(), "no field"))
+	}
+	if x.Op == "||" || x.Op == "&&" {
+		// locals that do not exist at this exit make an atom undefined = false
+		a, errA := env.eval(x.X)
+		b, errB := env.eval(x.Y)
+		if errA != nil && !undefinedErr(errA) {
+			return SVal{}, errA
+		}
+		if errB != nil && !undefinedErr(errB) {
+			return SVal{}, errB
+		}
+		if errA != nil || errB != nil {
+			env.toleranceUsed = true
+			if x.Op == "&&" {
+				return SVal{T: Term{"false", SBool}}, nil
+			}
+			if errA != nil && errB != nil {
+				return SVal{T: Term{"false", SBool}}, nil
+			}
+			if errA != nil {
+				return b, nil
+			}
+			return a, nil
+		}
+		if a.T.Sort != SBool || b.T.Sort != SBool {
+			return SVal{}, fmt.Errorf("operands of %s must be boolean in %s", x.Op, exprString(x))
+		}
+		if x.Op == "&&" {
+			return SVal{T: Term{and(a.T.S, b.T.S), SBool}}, nil
+		}
+		return SVal{T: Term{or(a.T.S, b.T.S), SBool}}, nil
+	}
 	a, err := env.eval(x.X)
 	if err != nil {
+		if x.Op == "==>" && env.tolerant && (strings.Contains(err.Error(), "unknown name") || strings.Contains(err.Error(), "no field")) {
+			// the antecedent talks about locals that do not exist at this exit: clause does not apply
+			env.toleranceUsed = true
+			return SVal{T: Term{"true", SBool}}, nil
+		}
 		return SVal{}, err
 	}
 	if x.Op == "in" {
@@ -605,8 +697,9 @@ func (env *SpecEnv) binary(x EBinary) (SVal, error) {
 	}
 	b, err := env.eval(x.Y)
 	if err != nil {
-		if x.Op == "==>" && env.tolerant && a.T.Sort == SBool && strings.Contains(err.Error(), "unknown name") {
+		if x.Op == "==>" && env.tolerant && a.T.Sort == SBool && (strings.Contains(err.Error(), "unknown name") || strings.Contains(err.Error(), "no field")) {
 			// names that do not exist at this exit: the antecedent must be false here
+			env.toleranceUsed = true
 			return SVal{T: Term{not(a.T.S), SBool}}, nil
 		}
 		return SVal{}, err
@@ -760,6 +853,21 @@ func (env *SpecEnv) call(x ECall) (SVal, error) {
 		return SVal{T: Term{eq(args[0].T.S, "null"), SBool}}, nil
 	case "dyntype":
 		return SVal{T: Term{sx("dyntype", args[0].T.S), SInt}}, nil
+	case "cast":
+		// cast("T", x): x viewed as a value of Go type T (interface value holding a *T)
+		if len(x.Args) == 2 {
+			if ts, ok := x.Args[0].(EStr); ok {
+				t, err := env.resolveType(ts.V)
+				if err != nil {
+					return SVal{}, err
+				}
+				return SVal{T: args[1].T, Typ: t}, nil
+			}
+		}
+		return SVal{}, fmt.Errorf("cast needs (\"type\", value)")
+	case "panicking":
+		// true while a panic is propagating (deferred calls on the exceptional path)
+		return SVal{T: Term{ft.heapTerm(env.state(), panickingHeap), SBool}}, nil
 	case "zero":
 		if s, ok := x.Args[0].(EStr); ok {
 			t, err := env.resolveType(s.V)
@@ -831,16 +939,24 @@ func (env *SpecEnv) call(x ECall) (SVal, error) {
 	}
 	// pure external function used in spec: same UF as in code
 	if strings.Contains(x.Fn, ".") {
+		resIdx := 0
+		fnName := x.Fn
+		if i := strings.LastIndex(fnName, "$"); i > 0 {
+			if k, err := strconv.Atoi(fnName[i+1:]); err == nil {
+				resIdx = k
+				fnName = fnName[:i]
+			}
+		}
 		var as, sorts []string
 		for _, a := range args {
 			as = append(as, a.T.S)
 			sorts = append(sorts, string(a.T.Sort))
 		}
-		rs, ok := e.pureResultSort(x.Fn)
+		rs, ok := e.pureResultSortN(fnName, resIdx)
 		if !ok {
 			return SVal{}, fmt.Errorf("unknown pure function %s", x.Fn)
 		}
-		fn := fmt.Sprintf("ext$%s$0", mangle(x.Fn))
+		fn := fmt.Sprintf("ext$%s$%d", mangle(fnName), resIdx)
 		u.declFun(fn, fmt.Sprintf("(declare-fun %s (%s) %s)", fn, strings.Join(sorts, " "), rs))
 		return SVal{T: Term{sx(fn, as...), rs}}, nil
 	}
@@ -951,4 +1067,13 @@ func (env *SpecEnv) resolveSpecSort(s string) (Sort, error) {
 		return "", err
 	}
 	return env.ft.e.u.sortOf(t), nil
+}
+
+func (env *SpecEnv) noteLoad(t Term) {
+	if env.ft.inQuant > 0 || env.inOld {
+		return
+	}
+	if t.Sort == SRef || t.Sort == SSlice {
+		env.loads = append(env.loads, t)
+	}
 }
